@@ -183,6 +183,7 @@ class Model:
         self.chains = {}        # (session, cid) -> {'ri':, 'objs': {name: Obj}}
         self.writer = {}        # location -> (session, cid, ri) of the run that stored it
         self.tainted = False
+        self.ri_chain = None
 
     def new_chain(self, sid, cid, ri, snap):
         objs_by_id = {}
@@ -220,8 +221,9 @@ class Model:
         faulty = fault_task is not None and fault_task[0] in o.names
         if faulty and fault_task[1] == 'raise_before':
             return False
+        och = self.ri_chain.get(o.ri, ch) if self.ri_chain else ch    # MultiChain: names of a shared object belong to the member that owns it
         for target in t['read_targets']:
-            if not self.request(ch, ch['objs'][target], runs, fault_task):
+            if not self.request(och, och['objs'][target], runs, fault_task):
                 return False
         if faulty:
             return False
